@@ -3,6 +3,6 @@ CONSTANTS
   MaxChunks = 3
   Kinds = {"import", "var", "type", "vargroup", "func", "method", "opmethod", "stmt", "block", "flit", "flitres", "conv"}
   Variants = {"plain"}
-  FuncExprIsDecl = TRUE
+  FuncExprIsDecl = FALSE
 INVARIANTS WantIsStatement CodeKeepsBytes SplitSane CodeMeetsStatement Export
 PROPERTY Terminates
